@@ -72,7 +72,7 @@ Devs(cls) ==
           <<"use_stochastic_rounding", "b:1">>, <<"scale_axis", "i:0">>, <<"qnoise_factor", "f:0.5">>, <<"use_ste", "b:0">>,
           <<"use_variables", "b:1">>, <<"elements_per_scale", "i:2">>, <<"min_po2_exponent", "i:1">>, <<"max_po2_exponent", "i:-3">>}
     [] cls = "bernoulli" -> {<<"alpha", "f:2.0">>, <<"temperature", "f:1.5">>, <<"use_real_sigmoid", "b:0">>}
-    [] cls = "ternary" -> {<<"alpha", "f:2.0">>, <<"threshold", "f:0.75">>, <<"use_stochastic_rounding", "b:1">>,
+    [] cls = "ternary" -> {<<"alpha", "f:2.0">>, <<"threshold", "f:0.75">>, <<"threshold", "f:0.0">>, <<"use_stochastic_rounding", "b:1">>,
                            <<"number_of_unrolls", "i:1">>}
     [] cls = "stochastic_ternary" -> {<<"threshold", "f:0.75">>, <<"temperature", "f:2.0">>,
                                       <<"use_real_sigmoid", "b:0">>, <<"number_of_unrolls", "i:1">>}
